@@ -23,6 +23,8 @@ EXPLICIT = {
     # an empty delimiter is a delimiter: the file exists, reads back, and is written back
     "empty-delim": [("all", "prepend", b"PATH", b"/opt/tool/bin:"), ("all", "delim", b"PATH", b""), ("launch", "append", b"LD_LIBRARY_PATH", b"/x"), ("launch", "delim", b"LD_LIBRARY_PATH", b""),
                     ("build", "delim", b"CPATH", b"")],
+    # paths are bytes: an entry that is not valid UTF-8 survives reading and writing back byte for byte
+    "raw-bytes": [("all", "append", b"PATH", b"/opt/\xff\xfe/bin"), ("all", "delim", b"PATH", b":"), ("launch", "override", b"LD_LIBRARY_PATH", b"/l\xe9b"), ("build", "prepend", b"CPATH", b"\x80")],
     "cpath-default-build+proc": [("build", "default", b"CPATH", b"/dflt"), ("process:web", "override", b"PATH", b"/procpath")],
 }
 STARTS = [{}, {b"PATH": b"/usr/bin", b"LD_LIBRARY_PATH": b"", b"CPATH": b"c"},
